@@ -181,9 +181,20 @@ func (c *Client) Send(dst *network.ServerIdentity, path string, buf []byte) ([]b
 	defer connLock.Unlock()
 
 	var rcv []byte
+	failed := true
 	defer func() {
 		c.Lock()
-		c.closeSingleUseConn(dst, path)
+		if failed {
+			// A connection on which a write or a read failed is not usable
+			// anymore (the server closes it when a request fails). Drop it
+			// even when connections are kept, so that the next request
+			// opens a new one instead of failing on this one forever.
+			if err := c.closeConn(destination{dst, path}); err != nil {
+				log.Lvl3("closing failed connection:", err)
+			}
+		} else {
+			c.closeSingleUseConn(dst, path)
+		}
 		c.rx += uint64(len(rcv))
 		c.tx += uint64(len(buf))
 		c.Unlock()
@@ -201,6 +212,7 @@ func (c *Client) Send(dst *network.ServerIdentity, path string, buf []byte) ([]b
 	if err != nil {
 		return nil, xerrors.Errorf("connection read: %v", err)
 	}
+	failed = false
 	return rcv, nil
 }
 
